@@ -166,8 +166,12 @@ class Channel(object):
     def __init__(self):
         self.reset()
 
+    def bind(self, loc):
+        self.bound = loc
+
     def reset(self):
         self.calls = 0
+        self.bound = None
         self.locals = None
         self.result = None
         self.exc = None
@@ -188,6 +192,15 @@ class Channel(object):
 
 def build(sig, flavour, chan, decorate):
     """Return (callable, undecorated function object, qualname)."""
+    if flavour == "stacked":
+        # the decorated callable is itself a functools.wraps wrapper with another calling convention than the function it wraps
+        import functools
+        ns = {"__hook__": chan.hook, "__bind__": chan.bind, "__decorate__": decorate, "__name__": "vf.generated18", "functools": functools}
+        src = ('def inner(%s):\n    "doc of target"\n    return __hook__(dict(locals()))\n\n'
+               '@__decorate__\n@functools.wraps(inner)\ndef target(*args, retries=3, **kw):\n'
+               '    __bind__(dict(locals()))\n    return inner(*args, **kw)\n') % render_params(sig)
+        exec(src, ns)
+        return ns["target"], "inner"
     first = {"function": None, "method": "self", "static": None, "class": "cls"}[flavour]
     params = render_params(sig, first)
     ns = {"__hook__": chan.hook, "__decorate__": decorate, "__name__": "vf.generated18"}
@@ -225,13 +238,15 @@ def classify(clause, sig, key=None, posonly_kw=False):
 def one(seed, i, res, tape):
     rng = random.Random("%s:C18:%d" % (seed, i))
     sig = gen_signature(rng)
-    flavour = rng.choice(["function", "function", "method", "static", "class"])
+    flavour = rng.choice(["function", "function", "method", "static", "class", "stacked"])
     names = all_names(sig)
     opts = {}
     optkind = rng.choice(["bare", "call", "action_type", "include_args", "no_result", "both"])
     if optkind in ("action_type", "both"):
         opts["action_type"] = "custom:type"
     loggable = [n for n in names if n != "self"]
+    if flavour == "stacked":
+        loggable = ["args", "retries", "kw"]  # the parameters of the callable that is decorated, as Python binds them
     if optkind in ("include_args", "both") and loggable:
         opts["include_args"] = rng.sample(loggable, rng.randint(0, len(loggable)))
     if optkind in ("no_result", "both"):
@@ -246,9 +261,20 @@ def one(seed, i, res, tape):
             list.append(self, tuple(item) + (pk[0],))
     problems = _P()
 
+    shared = [None]
+
     def deco(f):
         if optkind == "bare":
             return log_call(f)
+        if shared[0] is None:
+            # a decorator object kept in a variable and applied to several functions: first to a bystander, then to the target
+            shared[0] = log_call(**{k: v for k, v in opts.items() if k != "include_args"}) if "include_args" in opts else log_call(**opts)
+            if "include_args" not in opts:
+                def bystander(zzz=1):
+                    return zzz
+                bystander.__module__ = "vf.generated18"
+                shared[0](bystander)
+                return shared[0](f)
         return log_call(**opts)(f)
 
     try:
@@ -263,7 +289,7 @@ def one(seed, i, res, tape):
     raw_u = und.__func__ if flavour in ("method", "class") else und
     if dec is not None:
         raw_d = dec.__func__ if flavour in ("method", "class") else dec
-        if raw_d.__name__ != "target" or raw_d.__doc__ != "doc of target":
+        if raw_d.__name__ != raw_u.__name__ or raw_d.__doc__ != "doc of target":
             problems.append(("metadata", None, "__name__/__doc__ not preserved: %r %r" % (raw_d.__name__, raw_d.__doc__)))
         try:
             if str(inspect.signature(raw_d)) != str(inspect.signature(raw_u)):
@@ -274,6 +300,8 @@ def one(seed, i, res, tape):
     for _ in range(3 if dec is not None else 0):
         valid = rng.random() < 0.7
         args, kwargs = gen_args(rng, sig, valid)
+        if flavour == "stacked" and rng.random() < 0.5 and "retries" not in all_names(sig):
+            kwargs["retries"] = rng.randint(0, 9)
         plan = rng.choice(["return", "return", "raise", "raise_base"])
         chan_u.reset()
         chan_d.reset()
@@ -333,7 +361,7 @@ def one(seed, i, res, tape):
         want_type = opts.get("action_type") or "vf.generated18." + qual
         # "as Python binds them": the locals the undecorated function saw on entry (inspect.Signature.bind of 3.12 wrongly
         # rejects a positional-only name passed through **kwargs, so the interpreter's own binding is the reference)
-        expected = dict(chan_u.locals)
+        expected = dict(chan_u.bound if flavour == "stacked" else chan_u.locals)
         if flavour == "method":
             expected.pop("self", None)
         elif flavour == "class":
@@ -375,6 +403,20 @@ def one(seed, i, res, tape):
         else:
             if e.get("action_status") != "failed" or e.get("exception") != excs.qualname(type(chan_d.exc)):
                 problems.append(("actions", None, "action ended %r/%r for a raising call: %s" % (e.get("action_status"), e.get("exception"), desc)))
+    if flavour == "stacked" and names and names[0] not in ("args", "retries", "kw", "self"):
+        # a parameter of the function behind functools.wraps is not a parameter of the decorated callable: refused when decorating,
+        # never a KeyError at call time
+        try:
+            bad = log_call(include_args=[names[0]])(raw_u)
+            try:
+                bad(*([1] * len(sig["posonly"] + sig["pos"])))
+                problems.append(("decorate", None, "include_args naming a parameter of the wrapped-away function was accepted"))
+            except KeyError as e:
+                problems.append(("unexpected-raise", None, "include_args=[%r] on a functools.wraps wrapper: KeyError %s at call time" % (names[0], e)))
+            except BaseException:
+                problems.append(("decorate", None, "include_args naming a parameter of the wrapped-away function was accepted"))
+        except ValueError:
+            pass
     # invalid include_args must be refused at decoration time
     if rng.random() < 0.1:
         try:
